@@ -397,6 +397,98 @@ def strop_pipeline() -> typing.List[str]:
     return steps
 
 
+def _find_method(rel: str, cls_name: str, name: str) -> ast.FunctionDef:
+    tree = gen.parse_repo(rel)
+    for node in tree.body:
+        if isinstance(node, ast.ClassDef) and node.name == cls_name:
+            for f in node.body:
+                if isinstance(f, ast.FunctionDef) and f.name == name:
+                    return f
+    raise FailClosed('%s: %s.%s not found' % (rel, cls_name, name))
+
+
+def default_id_rule() -> typing.List[str]:
+    """Language.default_filter_id_for_target(cls, instance) -> ordered cases:
+         if hasattr(instance, "name"): return str(instance.name)     DNameAttr
+         [else:] return str(instance)                                 DStr"""
+    fn = _find_method('src/nunavut/lang/_language.py', 'Language', 'default_filter_id_for_target')
+    params = [x.arg for x in fn.args.posonlyargs + fn.args.args]
+    if len(params) != 2 or fn.args.vararg or fn.args.kwarg or fn.args.kwonlyargs:
+        raise FailClosed('default_filter_id_for_target: unexpected signature')
+    inst = params[1]
+    rules: typing.List[str] = []
+
+    def ret_rule(st) -> str:
+        v = st.value if isinstance(st, ast.Return) else None
+        if not (isinstance(v, ast.Call) and _is_name(v.func, 'str') and len(v.args) == 1 and not v.keywords):
+            raise FailClosed('default_filter_id_for_target: a branch does not `return str(...)`')
+        a = v.args[0]
+        if _is_name(a, inst):
+            return 'DStr'
+        if isinstance(a, ast.Attribute) and _is_name(a.value, inst) and a.attr == 'name':
+            return 'NAME'
+        raise FailClosed('default_filter_id_for_target: str() of something other than instance / instance.name')
+
+    def walk(body):
+        for st in body:
+            if isinstance(st, ast.If):
+                t = st.test
+                if not (isinstance(t, ast.Call) and _is_name(t.func, 'hasattr') and len(t.args) == 2 and _is_name(t.args[0], inst)
+                        and isinstance(t.args[1], ast.Constant) and t.args[1].value == 'name' and len(st.body) == 1
+                        and ret_rule(st.body[0]) == 'NAME'):
+                    raise FailClosed('default_filter_id_for_target: condition is not `hasattr(instance, "name")` guarding str(instance.name)')
+                rules.append('DNameAttr')
+                walk(st.orelse)
+            elif isinstance(st, ast.Return):
+                r = ret_rule(st)
+                if r != 'DStr':
+                    raise FailClosed('default_filter_id_for_target: unguarded use of instance.name')
+                rules.append('DStr')
+                return
+            else:
+                raise FailClosed('default_filter_id_for_target: statement outside the translated subset (line %d)' % st.lineno)
+    walk(_strip_doc(fn.body))
+    return rules
+
+
+def filter_id_steps(ln: str) -> typing.List[str]:
+    """Language.filter_id(self, instance, id_type="any") of one target:
+         v = self.default_filter_id_for_target(instance)          FDefaultId
+         [e = self._token_encoder]
+         return (e | self._token_encoder).strop(v, id_type)        FStrop"""
+    fn = _find_method('src/nunavut/lang/%s/__init__.py' % ln, 'Language', 'filter_id')
+    a = fn.args
+    params = [x.arg for x in a.posonlyargs + a.args]
+    if len(params) != 3 or a.vararg or a.kwarg or a.kwonlyargs or fn.decorator_list:
+        raise FailClosed('%s Language.filter_id: unexpected signature or decorator (memoisation is not modelled here)' % ln)
+    if len(a.defaults) != 1 or not (isinstance(a.defaults[0], ast.Constant) and a.defaults[0].value == 'any'):
+        raise FailClosed('%s Language.filter_id: default id type is not "any"' % ln)
+    _, inst, idt = params
+    steps, raw, encs = [], None, set()
+    body = _strip_doc(fn.body)
+    for st in body[:-1]:
+        if not (isinstance(st, ast.Assign) and len(st.targets) == 1 and isinstance(st.targets[0], ast.Name)):
+            raise FailClosed('%s Language.filter_id line %d: statement outside the translated subset' % (ln, st.lineno))
+        v = st.value
+        if (_is_call_attr(v, 'default_filter_id_for_target', 1) and _is_name(v.func.value, 'self') and _is_name(v.args[0], inst)
+                and raw is None):
+            raw = st.targets[0].id
+            steps.append('FDefaultId')
+        elif isinstance(v, ast.Attribute) and _is_name(v.value, 'self') and v.attr == '_token_encoder':
+            encs.add(st.targets[0].id)
+        else:
+            raise FailClosed('%s Language.filter_id line %d: statement outside the translated subset' % (ln, st.lineno))
+    last = body[-1] if body else None
+    c = last.value if isinstance(last, ast.Return) else None
+    ok_recv = isinstance(c, ast.Call) and isinstance(c.func, ast.Attribute) and c.func.attr == 'strop' and (
+        (isinstance(c.func.value, ast.Name) and c.func.value.id in encs)
+        or (isinstance(c.func.value, ast.Attribute) and _is_name(c.func.value.value, 'self') and c.func.value.attr == '_token_encoder'))
+    if not (ok_recv and raw is not None and not c.keywords and len(c.args) == 2 and _is_name(c.args[0], raw) and _is_name(c.args[1], idt)):
+        raise FailClosed('%s Language.filter_id: does not end in `return self._token_encoder.strop(<default id>, id_type)`' % ln)
+    steps.append('FStrop')
+    return steps
+
+
 def cache_key_facts() -> typing.Tuple[typing.List[str], bool, bool]:
     """What takes part in the lru_cache key of TokenEncoder.strop: the parameters of the decorated function, in order
     (functools.lru_cache keys on the call's positional and keyword arguments; Language.filter_id passes token and type
@@ -494,6 +586,9 @@ def build_text(doc: dict) -> str:
                  'Definition strop_self_by_identity : bool := %s.\n'
                  'Definition encoder_attrs_frozen : bool := %s.\n'
                  % ('; '.join(key), 'true' if by_identity else 'false', 'true' if frozen else 'false'))
+    parts.append('(* Language.default_filter_id_for_target and Language.filter_id of c, cpp, py, translated (meaning: Gen/Strop.v run_default,\n'
+                 '   StropInst.filter_id) *)\nDefinition default_id_rule : list drule := [%s].\n' % '; '.join(default_id_rule())
+                 + ''.join('Definition filter_id_steps_%s : list fstep := [%s].\n' % (ln, '; '.join(filter_id_steps(ln))) for ln in LANGS))
     steps = strop_pipeline()
     reverify = any(st.startswith('PReverify') for st in steps)
     if reverify != strop_reverifies():
@@ -616,13 +711,9 @@ PINNED = [('src/nunavut/lang/_common.py', 'TokenEncoder.__init__'),
           ('src/nunavut/lang/_common.py', 'TokenEncoder._do_for_type_and_all'),
           ('src/nunavut/lang/_common.py', 'TokenEncoder.encode_character'),
           ('src/nunavut/lang/_common.py', 'TokenEncoder._get_map_of_type_to_lists_of_patterns'),
-          ('src/nunavut/lang/_language.py', 'Language.default_filter_id_for_target'),
           ('src/nunavut/lang/_language.py', 'Language.filter_short_reference_name'),
-          ('src/nunavut/lang/c/__init__.py', 'Language.filter_id'),
           ('src/nunavut/lang/c/__init__.py', 'Language._token_encoder'),
-          ('src/nunavut/lang/cpp/__init__.py', 'Language.filter_id'),
           ('src/nunavut/lang/cpp/__init__.py', 'Language._token_encoder'),
-          ('src/nunavut/lang/py/__init__.py', 'Language.filter_id'),
           ('src/nunavut/lang/py/__init__.py', 'Language._token_encoder')]
 
 
